@@ -224,20 +224,23 @@ Definition res_agrees (c : rescase) : bool :=
    after its cancel sees the close; at the end nothing is left. *)
 Fixpoint all_true (l : list bool) : bool := match l with [] => true | b :: r => b && all_true r end.
 
-Fixpoint res_clean (nw : nat) (canc : list bool) (script : list (qaction * list Z)) : bool :=
+(* With the turnstile a committed writer that the CONTROLLER holds at the yield point before
+   bus.Send (code 2) has not published: later commits - and through a Delete among them, c.mu -
+   legitimately wait for it; such steps are not judged. *)
+Fixpoint res_clean (ts : bool) (nw : nat) (canc : list bool) (script : list (qaction * list Z)) : bool :=
   match script with
   | [] => true
   | (a, o) :: r =>
       let canc' := match a with QCancel k => upd canc k true | _ => canc end in
-      (if all_true canc'
+      (if all_true canc' && negb (ts && existsb (fun v => v =? 2) (firstn nw o))
        then forallb (fun v => negb (v =? 4)) (firstn nw o) && (nth nw o (-1) =? 0)
        else true)
-      && res_clean nw canc' r
+      && res_clean ts nw canc' r
   end.
 
 Definition res_ok (c : rescase) : bool :=
   (rc_panics c =? 0) && (rc_leaks c =? 0) && (rc_stuck c =? 0)
-  && res_clean (rc_nw c) (repeat false (rc_nsub c)) (rc_script c).
+  && res_clean (rc_ts c) (rc_nw c) (repeat false (rc_nsub c)) (rc_script c).
 
 (* model-branch coverage of a case: which blocking situations the replay went through
    (bit 0: a Delete held c.mu inside bus.Send at a quiescent state; bit 1: a writer waited for c.mu;
